@@ -14,5 +14,9 @@ static void verif_empty_string(uint8_t* s) {
 void X__ZNSt7__cxx119to_stringEm(uint8_t* ret, uint64_t v) { (void)v; verif_empty_string(ret); }
 /* std::operator+(const char*, std::string&&) */
 void X__ZStplIcSt11char_traitsIcESaIcEENSt7__cxx1112basic_stringIT_T0_T1_EEPKS5_OS8_(uint8_t* ret, uint8_t* lhs, uint8_t* rhs) { (void)lhs; (void)rhs; verif_empty_string(ret); }
+/* std::string::basic_string(const char*, const allocator&): in this unit only exception messages are built from literals */
+void X__ZNSt7__cxx1112basic_stringIcSt11char_traitsIcESaIcEEC2IS3_EEPKcRKS3_(uint8_t* self, uint8_t* s, uint8_t* a) { (void)s; (void)a; verif_empty_string(self); }
+/* phosg::string_printf(const char*, ...): in this unit only value_for_hex_char's exception message */
+void X__ZN5phosg13string_printfB5cxx11EPKcz(uint8_t* ret, uint8_t* fmt, ...) { (void)fmt; verif_empty_string(ret); }
 #endif
 #endif
